@@ -12,7 +12,7 @@ func EndBlocker(ctx sdk.Context, k keeper.Keeper) {
 	// TODO: should consider InflationRate and InflationPeriod on governance params
 	for _, record := range allRecords {
 		currUnixTimestamp := uint64(ctx.BlockTime().Unix())
-		if currUnixTimestamp > record.DistributionLast+record.Period && (record.DistributionEnd == 0 || record.DistributionLast < record.DistributionEnd) {
+		if currUnixTimestamp > record.DistributionLast && currUnixTimestamp-record.DistributionLast > record.Period && (record.DistributionEnd == 0 || record.DistributionLast < record.DistributionEnd) {
 			cacheCtx, write := ctx.CacheContext()
 			err := k.ProcessUBIRecord(cacheCtx, record)
 			if err == nil {
